@@ -213,7 +213,12 @@ def spawn (s : Sys) (k : PK) (now : Time) : Sys × Nat :=
   ({ s with procs := s.procs ++ [{ pid := s.nextPid, k := k, wake := now }],
             nextPid := s.nextPid + 1 }, s.nextPid)
 
-def crash (s : Sys) (e : Err) : Sys := { s with crashed := some e }
+/-- the first exception of a run is the one that leaves `env.run` (SimPy still
+    runs the older events of that instant before it propagates) -/
+def crash (s : Sys) (e : Err) : Sys :=
+  match s.crashed with
+  | some _ => s
+  | none => { s with crashed := some e }
 
 def isTaskFinished (s : Sys) (t : Tid) : Bool := s.cl.isTaskFinished t
 
